@@ -24,6 +24,13 @@
 (* read is cancel-safe; read after EOF yields EOF again; write returns a   *)
 (* suffix of its argument; wait_writable returns Ok only when at least one *)
 (* byte can be written; eof is idempotent.                                 *)
+(* The contract is an assumption HERE and an obligation of every real      *)
+(* endpoint: ReqSource.tla (forwarded request bodies) and DgramReader.tla  *)
+(* (multiplexer streams) state it for the two sources with internal state  *)
+(* and are replayed with dropped reads; the stream halves of the HTTP/1.1  *)
+(* and HTTP/2 codecs and of TcpForwarder are exercised under it end to end *)
+(* (c02e --ticks: a tunnel whose silent direction expires every few ms     *)
+(* while the other streams; the relayed stream must stay a correct prefix) *)
 (***************************************************************************)
 EXTENDS Naturals, Sequences, FiniteSets, TLC
 
